@@ -1,3 +1,5 @@
+pub mod gen;
+pub mod jv;
 pub mod proj;
 pub mod uni;
 
